@@ -619,6 +619,7 @@ func runC10(r *harness.Run) {
 	st := c10RunStackPart(r)
 	ca := c10RunCallPart(r)
 	ob := c10RunObjPart(r)
+	c10EnvPart(r)
 	r.Rule = st.rule + " || " + ca.rule + " || " + ob.rule
 	r.Extra["states"] = st.states
 	r.Extra["transitions"] = st.transitions
